@@ -145,7 +145,7 @@ impl PieceType for Pawn {
             // the checker and our king
             let resolves_check = check_mask.contains(capture_pawn) || check_mask.contains(dest_pos);
 
-            if resolves_check {
+            if resolves_check && (dest & mask).any() {
                 let opp_bb = board.raw[!board.turn];
                 let queen_bb = board.raw[Piece::Queen];
                 let rooks = (board.raw[Piece::Rook] | queen_bb) & opp_bb;
